@@ -31,6 +31,7 @@ func init() {
 		Mutant{"small-order-accepted", F, "if hasSmallOrder(_remEphPub) {", "if hasSmallOrder(_remEphPub) && _remEphPub[0] == 1 {", "handshake-auth"},
 		Mutant{"dh-error-ignored", F, "dhSecret, err := computeDHSecret(remEphPub, locEphPriv)\n\tif err != nil {\n\t\treturn nil, err\n\t}", "dhSecret, _ := computeDHSecret(remEphPub, locEphPriv)", "handshake-auth"},
 		Mutant{"early-remote-key", F, "\tremPubKey, remSignature := authSigMsg.Key, authSigMsg.Sig\n", "\tremPubKey, remSignature := authSigMsg.Key, authSigMsg.Sig\n\tsc.remPubKey = authSigMsg.Key\n", "handshake-auth"},
+		Mutant{"connection-rebuilt-after-auth", F, "\tsc.remPubKey = remPubKey\n\treturn sc, nil", "\tsc = &SecretConnection{conn: conn, recvNonce: new([aeadNonceSize]byte), sendNonce: new([aeadNonceSize]byte), recvAead: recvAead, sendAead: sendAead}\n\tsc.remPubKey = remPubKey\n\treturn sc, nil", "handshake-auth tm2/pkg/p2p/conn.MakeSecretConnection exactly one SecretConnection constructed"},
 		Mutant{"chunk-length-unbounded", F, "if chunkLength > dataMaxSize {", "if chunkLength > totalFrameSize {", "frame-bounds"},
 		Mutant{"reader-frame-too-small", F, "sealedFrame := pool.Get(aeadSizeOverhead + totalFrameSize)\n\tdefer pool.Put(sealedFrame)", "sealedFrame := pool.Get(totalFrameSize)\n\tdefer pool.Put(sealedFrame)", "frame-bounds"},
 		Mutant{"nonce-wraps", F, "if counter == math.MaxUint64 {", "if counter == math.MaxUint64 && nonce[0] == 1 {", "nonce-wrap"},
@@ -200,22 +201,23 @@ func c42(c *engine.Ctx) {
 	c.Check("who-may-call", P+"incrNonce", token.NoPos, len(incExtra) == 0 && len(incRefs) == 2, "callers outside Write/Read and their private helpers: "+join(incExtra))
 
 	// ---- (2) key separation: users and writers of the four fields ----
+	cons := c42FindConstruction(p, mk)
 	for _, x := range []struct {
 		f    *types.Var
 		name string
 		user string
 	}{{fSendA, "sendAead", SC + "Write"}, {fSendN, "sendNonce", SC + "Write"}, {fRecvA, "recvAead", SC + "Read"}, {fRecvN, "recvNonce", SC + "Read"}} {
-		extra := p.UnexpectedCallers(p.RefsTo(func(o types.Object) bool { return o == types.Object(x.f) }), []string{x.user, P + "MakeSecretConnection"})
+		extra := p.UnexpectedCallers(p.RefsTo(func(o types.Object) bool { return o == types.Object(x.f) }), []string{x.user, P + "MakeSecretConnection", cons.B.Name})
 		c.Check("key-separation", P+"SecretConnection."+x.name+" used by one direction only", token.NoPos, len(extra) == 0, "other users: "+join(extra))
 		var nonLit []string
 		for _, w := range p.FieldWrites(x.f) {
-			if w.Kind != "lit" || w.Fn.Root() != mk {
+			if w.Kind != "lit" || w.Fn.Root() != cons.B {
 				nonLit = append(nonLit, w.Fn.Root().Name+"("+w.Kind+")")
 			}
 		}
 		c.Check("who-may-write", P+"SecretConnection."+x.name, token.NoPos, len(nonLit) == 0, "writes other than the constructor literal: "+join(nonLit))
 	}
-	c42Constructor(c, p, mk, fSendA, fRecvA, fSendN, fRecvN, fRem)
+	c42Constructor(c, p, mk, cons, fSendA, fRecvA, fSendN, fRecvN, fRem)
 
 	// ---- (3) key derivation ----
 	if f := c.MustFunc(P + "deriveSecretAndChallenge"); f != nil {
@@ -284,7 +286,7 @@ func c42(c *engine.Ctx) {
 	}
 }
 
-func c42Constructor(c *engine.Ctx, p *engine.Prog, mk *engine.Fn, fSendA, fRecvA, fSendN, fRecvN, fRem *types.Var) {
+func c42Constructor(c *engine.Ctx, p *engine.Prog, mk *engine.Fn, cons c42Cons, fSendA, fRecvA, fSendN, fRecvN, fRem *types.Var) {
 	const P = "tm2/pkg/p2p/conn."
 	const rule = "handshake-auth"
 	info := mk.Info()
@@ -296,25 +298,11 @@ func c42Constructor(c *engine.Ctx, p *engine.Prog, mk *engine.Fn, fSendA, fRecvA
 		return
 	}
 	recvSecret, sendSecret, challenge := dobjs[0], dobjs[1], dobjs[2]
-	// literal: AEADs from the matching secrets, distinct nonce allocations
-	var lit *ast.CompositeLit
-	engine.InspectBody(mk, func(n ast.Node) {
-		if cl, ok := n.(*ast.CompositeLit); ok {
-			if t := info.TypeOf(cl); t != nil && engine.TypeName(t) == P+"SecretConnection" {
-				lit = cl
-			}
-		}
-	})
-	vals := map[*types.Var]ast.Expr{}
-	if lit != nil {
-		for _, el := range lit.Elts {
-			if kv, ok := el.(*ast.KeyValueExpr); ok {
-				if k, ok := engine.ObjOf(info, kv.Key).(*types.Var); ok {
-					vals[k] = kv.Value
-				}
-			}
-		}
-	}
+	// the connection is constructed by one composite literal, in mk or in one
+	// private constructor helper called exactly once from mk
+	c.Check(rule, mk.Name+" exactly one SecretConnection constructed per handshake", mk.Pos(), cons.Why == "", cons.Why)
+	lit := cons.Lit
+	vals := cons.Vals
 	aeadFrom := func(e ast.Expr, secret types.Object) bool {
 		if e == nil {
 			return false
@@ -325,7 +313,7 @@ func c42Constructor(c *engine.Ctx, p *engine.Prog, mk *engine.Fn, fSendA, fRecvA
 			objs := niAssignedFromCall(mk, s)
 			if len(objs) == 2 && objs[0] == o && o != nil && len(s.Call.Args) == 1 && niMentionsObj(info, s.Call.Args[0], secret) {
 				// error checked before the literal
-				if ls := mk.SiteOf(lit); ls != nil {
+				if ls := cons.Site; ls != nil {
 					if gr := g.CheckedGuard(s, ls); gr.OK && c39NilTestPasses(gr) {
 						return true
 					}
@@ -436,12 +424,15 @@ func c42Constructor(c *engine.Ctx, p *engine.Prog, mk *engine.Fn, fSendA, fRecvA
 		c.Check(rule, mk.Name+" connection returned only after checked shareAuthSignature", r.Pos(), okA, whyA)
 		okV, whyV, _ := verified(r)
 		c.Check(rule, mk.Name+" connection returned only after challenge verification", r.Pos(), okV, whyV)
-		c.Check(rule, mk.Name+" returns the constructed connection with nil error", r.Pos(), isNil(rs.Results[1]) && lit != nil && func() bool {
-			o := engine.ObjOf(info, rs.Results[0])
-			d := niSingleDef(mk, o)
-			u, ok := ast.Unparen(d).(*ast.UnaryExpr)
-			return d != nil && ok && u.Op == token.AND && ast.Unparen(u.X) == ast.Expr(lit)
-		}(), "")
+		c.Check(rule, mk.Name+" returns the constructed connection with nil error", r.Pos(), isNil(rs.Results[1]) && lit != nil && cons.Obj != nil && engine.ObjOf(info, rs.Results[0]) == cons.Obj, "the value returned must be the one object constructed for this handshake")
+	}
+	// the authentication exchange ran over that very object (its nonces were advanced by the auth frames)
+	{
+		scA := cons.Obj
+		if A != mk && cons.Obj != nil {
+			scA = niParamMap(mk, auD[0].Outer.Call, A)[cons.Obj]
+		}
+		c.Check(rule, mk.Name+" authentication exchange runs over the returned connection", au.Pos(), scA != nil && len(au.Call.Args) == 3 && engine.ObjOf(ainfo, au.Call.Args[0]) == scA, "shareAuthSignature must use the connection object that is returned (a rebuilt connection would restart its nonces)")
 	}
 	c.Floor(rule, nret, 1)
 	// remPubKey: single write, after verification, of the verified key
@@ -979,6 +970,129 @@ func c42ScopeOf(p *engine.Prog, f *engine.Fn) []*engine.Fn {
 		}
 		out = append(out, x)
 		out = append(out, x.AllLits()...)
+	}
+	return out
+}
+
+// c42Cons describes how the handshake builds its SecretConnection.
+type c42Cons struct {
+	B    *engine.Fn              // function holding the composite literal (mk or a private helper)
+	Lit  *ast.CompositeLit       // the literal
+	Site *engine.Site            // construction site in mk (the literal, or the single call of B)
+	Obj  types.Object            // mk's variable holding the constructed connection
+	Vals map[*types.Var]ast.Expr // field -> value, helper parameters replaced by mk's argument expressions
+	Why  string                  // non-empty: why the construction is not "exactly one per handshake"
+}
+
+func c42FindConstruction(p *engine.Prog, mk *engine.Fn) c42Cons {
+	const P = "tm2/pkg/p2p/conn."
+	out := c42Cons{B: mk, Vals: map[*types.Var]ast.Expr{}}
+	type found struct {
+		fn  *engine.Fn
+		lit *ast.CompositeLit
+	}
+	var lits []found
+	for _, f := range p.FuncsIn("tm2/pkg/p2p/conn") {
+		engine.InspectBody(f, func(n ast.Node) {
+			if cl, ok := n.(*ast.CompositeLit); ok {
+				if t := f.Info().TypeOf(cl); t != nil && engine.TypeName(t) == P+"SecretConnection" {
+					lits = append(lits, found{f, cl})
+				}
+			}
+		})
+	}
+	if len(lits) != 1 {
+		out.Why = "expected exactly one SecretConnection composite literal in the package"
+		if len(lits) > 0 {
+			out.Lit, out.B = lits[0].lit, lits[0].fn.Root()
+		}
+		return out
+	}
+	lf, lit := lits[0].fn, lits[0].lit
+	out.Lit = lit
+	info := mk.Info()
+	bindObj := func(node ast.Node) types.Object {
+		// mk variable defined from the expression containing node
+		var o types.Object
+		engine.InspectBody(mk, func(n ast.Node) {
+			as, ok := n.(*ast.AssignStmt)
+			if !ok || len(as.Lhs) != 1 || len(as.Rhs) != 1 {
+				return
+			}
+			if as.Rhs[0].Pos() <= node.Pos() && node.End() <= as.Rhs[0].End() {
+				if d := niSingleDef(mk, engine.ObjOf(info, as.Lhs[0])); d == as.Rhs[0] {
+					o = engine.ObjOf(info, as.Lhs[0])
+				}
+			}
+		})
+		return o
+	}
+	for _, el := range lit.Elts {
+		if kv, ok := el.(*ast.KeyValueExpr); ok {
+			if k, ok := engine.ObjOf(lf.Info(), kv.Key).(*types.Var); ok {
+				out.Vals[k] = kv.Value
+			}
+		}
+	}
+	if lf == mk {
+		out.Site = mk.SiteOf(lit)
+		out.Obj = bindObj(lit)
+		if len(niEnclosingLoops(mk, lit)) > 0 {
+			out.Why = "the connection is constructed inside a loop"
+		}
+		return out
+	}
+	B := lf.Root()
+	out.B = B
+	if lf != B || B.Obj == nil || B.Obj.Exported() {
+		out.Why = "the connection literal is in " + lf.Name + ", not in MakeSecretConnection or a private constructor"
+		return out
+	}
+	sites, complete := c49CallersOf(p, B)
+	if !complete || len(sites) != 1 || sites[0].Fn != mk {
+		out.Why = "the private constructor " + B.Name + " must be called exactly once, from MakeSecretConnection (a second construction restarts the nonces)"
+		if len(sites) > 0 && sites[0].Fn == mk {
+			out.Site = sites[0]
+		}
+		return out
+	}
+	cs := sites[0]
+	out.Site = cs
+	out.Obj = bindObj(cs.Call)
+	if len(niEnclosingLoops(mk, cs.Call)) > 0 {
+		out.Why = "the connection is constructed inside a loop"
+	}
+	// B returns the literal's address
+	okRet := false
+	for _, r := range niReturns(B) {
+		rs := r.Node.(*ast.ReturnStmt)
+		if len(rs.Results) == 0 {
+			continue
+		}
+		e := ast.Unparen(rs.Results[0])
+		if id, ok := e.(*ast.Ident); ok {
+			if d := niSingleDef(B, B.Info().ObjectOf(id)); d != nil {
+				e = ast.Unparen(d)
+			}
+		}
+		u, ok := e.(*ast.UnaryExpr)
+		okRet = ok && u.Op == token.AND && ast.Unparen(u.X) == ast.Expr(lit)
+		if !okRet {
+			break
+		}
+	}
+	if !okRet {
+		out.Why = B.Name + " does not return the address of its literal"
+	}
+	// parameters -> mk's argument expressions
+	for k, v := range out.Vals {
+		if po := engine.ObjOf(B.Info(), v); po != nil {
+			for i := range cs.Call.Args {
+				if paramObj(B, i) == po {
+					out.Vals[k] = cs.Call.Args[i]
+				}
+			}
+		}
 	}
 	return out
 }
